@@ -83,3 +83,11 @@ Theorem C19_the_source_of_deserialize_yields_exactly_the_input :
   end.
 Proof. exact visit_seq_source. Qed.
 Print Assumptions C19_the_source_of_deserialize_yields_exactly_the_input.
+
+(* serialization is the delegation to serde's collect_seq over the vector itself (so what is announced
+   and emitted is what the element slice's iterator gives: the harness's recording serializer compares
+   it with the slice's own Serialize for several storage states) *)
+Theorem C19_serialize_is_collect_seq_of_self :
+  fn_body serde__MiniVec__serialize_ast = Blk [] (Some (ECall ".collect_seq" [EVar "serializer"; EVar "self"])) /\
+  fn_params serde__MiniVec__serialize_ast = ["self"; "serializer"].
+Proof. exact serialize_delegates_to_collect_seq. Qed.
